@@ -74,6 +74,7 @@ pub fn run(o: &Opts) {
     tr.emit(json!({"ev":"arena","bytes":arena.slice().to_vec()}));
     // lengths: every residue of 8/16/32/64 and more than four AVX-512 vectors
     let lite = o.flag("lite");
+    let isolate = o.flag("isolate");
     let mut lens: Vec<usize> = if lite { (0..=70).collect() } else { (0..=132).collect() };
     lens.extend([160, 191, 192, 193, 200, 255, 256, 257, 260, 289, 300]);
     let offs: Vec<usize> = if o.thorough() { (0..64).collect() } else { vec![0, 1, 7, 8, 31, 63] };
@@ -118,8 +119,12 @@ pub fn run(o: &Opts) {
         let scalar = Octet::new(c);
         let mut ev = json!({"ev":"op","k":kind,"level":level_name,"off":start,"len":n,"c":c});
         let a = arena.slice();
+        // --isolate (guard-page runs): the destination operand lives in an allocation of exactly n bytes of its own (flush
+        // against an inaccessible page under RQV_GUARD), so that a read or write of even one byte beside it faults; the
+        // result is copied back into the arena and validated as usual
+        let mut own: Vec<u8> = if isolate { a[start..start + n].to_vec() } else { Vec::new() };
         let r = catch(AssertUnwindSafe(|| {
-            let dest = &mut a[start..start + n];
+            let dest: &mut [u8] = if isolate { &mut own[..] } else { &mut a[start..start + n] };
             match (kind.as_str(), level) {
                 ("add", Some(l)) => vk::add_assign_at(l, dest, &src),
                 ("add", None) => v::add_assign(dest, &src),
@@ -132,6 +137,9 @@ pub fn run(o: &Opts) {
                 _ => panic!("unknown kernel kind"),
             }
         }));
+        if isolate {
+            arena.slice()[start..start + n].copy_from_slice(&own);
+        }
         match r {
             Ok(()) => ev["res"] = json!("ok"),
             Err(m) => {
